@@ -637,6 +637,47 @@ def d38():
     return with_tree(run)
 
 
+def d39():
+    """ZIP index cache: only shelve.open() is guarded; a store that opens but is damaged inside fails at the first
+    look-up, outside any guard (history: index written, a file with the bare cache name exists - as every dbm backend
+    other than dbm.dumb leaves it -, the data file cut short)"""
+    def run(d):
+        import zipfile as zf
+
+        os.mkdir(os.path.join(d, "dir"))
+        zp = os.path.join(d, "dir", "arch.zip")
+        with zf.ZipFile(zp, "w") as z:
+            z.writestr("m.txt", "hello")
+            z.writestr("sub/n.txt", "world")
+        cfg = make_config(root=d, conf="conf/pygopherd.conf")
+        cfg.set("handlers.dir.DirHandler", "cachetime", "0")
+        cfg.set("handlers.ZIP.ZIPHandler", "enabled", "true")
+        hl = cfg.get("handlers.HandlerMultiplexer", "handlers")
+        cfg.set("handlers.HandlerMultiplexer", "handlers", hl.replace("[", "[ZIP.ZIPHandler, ", 1))
+        ref, esc0, _ = request(b"/dir/arch.zip/m.txt\r\n", cfg)       # writes the index cache
+        base = os.path.join(d, "dir", ".cache.pygopherd.zip3.arch.zip")
+        stores = [f for f in os.listdir(os.path.join(d, "dir")) if f.startswith(".cache.pygopherd.zip3.")]
+        if not os.path.exists(base):
+            open(base, "wb").close()                                   # the name the freshness test stats
+        dat = base + ".dat"
+        if os.path.exists(dat):
+            raw = open(dat, "rb").read()
+            open(dat, "wb").write(raw[: len(raw) // 2])
+        else:
+            raw = open(base, "rb").read()
+            open(base, "wb").write(raw[: len(raw) // 2])
+        future = os.stat(zp).st_mtime + 5
+        for f in os.listdir(os.path.join(d, "dir")):
+            if f.startswith(".cache.pygopherd.zip3."):
+                os.utime(os.path.join(d, "dir", f), (future, future))
+        out, esc, _ = request(b"/dir/arch.zip/sub/n.txt\r\n", cfg)
+        out2, esc2, _ = request(b"/dir/arch.zip/m.txt\r\n", cfg)
+        bad = esc is not None or esc2 is not None or out2 != ref or b"world" not in out
+        return bad, f"stores={sorted(stores)} escaped={type(esc).__name__ if esc else None}/{type(esc2).__name__ if esc2 else None} m.txt same={out2 == ref} n.txt={out[:30]!r}"
+
+    return with_tree(run)
+
+
 ALL = {k: v for k, v in list(globals().items()) if k.startswith("d") and k[1:2].isdigit() and callable(v)}
 ALL.pop("d8", None)
 
